@@ -56,6 +56,12 @@ def cases(tier):
         if n <= 7:
             add("quasigroup5", [n], {"cfg": "smallest-mid", "sym": True}, count=cnt, group=f"qg5-{n}-sym")
             add("quasigroup5", [n], {"cfg": "bc", "sym": False}, symgroup=f"qg5-{n}", group=f"qg5-{n}-nosym")
+    for n in (1, 2, 3, 4, 5) + ((6,) if th else ()):
+        for cfg in ("bc", "smallest-mid") + (("shaving",) if n <= 4 else ()):
+            add("quasigroup", [n], {"cfg": cfg, "sym": False}, reference=True, group=f"qg-{n}-nosym", symgroup=f"qg-{n}")
+            add("quasigroup", [n], {"cfg": cfg, "sym": True}, group=f"qg-{n}-sym", symgroup=f"qg-{n}")
+        if n >= 3:
+            add("quasigroup", [n], {"cfg": "bc", "sym": False, "procs": 2}, reference=True, group=f"qg-{n}-nosym")
     for n, sym, cnt in ((2, True, 0), (3, True, 1), (3, False, 8), (4, True, 880)) + (((4, False, 7040),) if th else ()):
         add("magic_square", [n], {"cfg": "bc", "sym": sym}, count=cnt, group=f"msq{n}{sym}")
         if n <= 3:
@@ -194,7 +200,7 @@ def run(tier, seed):
         "samples": acc.samples[:2] or [{"cases": n}],
         "states": n, "transitions": acc.c["solutions_validated"], "traces_validated_against_impl": n,
         "cases": n, "exhaustive": True,
-        "bounds": f"tier={tier}: queens 1..{10 if tier == 'thorough' else 8}, latin 1..4 (two models), quasigroup5 5..{9 if tier == 'thorough' else 8}, "
+        "bounds": f"tier={tier}: queens 1..{10 if tier == 'thorough' else 8}, latin 1..4 (two models), idempotent quasigroup 1..5 (6), quasigroup5 5..{9 if tier == 'thorough' else 8}, "
                   "magic square 2..4, magic sequence 1..12 (30), Golomb 4..7 (8), BIBD, Schur 3..9 (11) + 13,14, STS 4,6 (8), circuit 2..8 (9), clustered 8-town TSP, "
                   "knapsack, TSP 4-6 cities (+GR17), sudoku, donald, alpha; 1..3 processes on queens / latin / magic",
     }
